@@ -3,5 +3,5 @@ BINS = ["lane", "tok", "int", "lin", "mask", "conv", "hid", "rot", "interp", "sa
 # feature builds (serde, bytemuck, mint, rkyv)
 FEAT_CFGS = ["feat", "feat-scalar", "feat-coresimd"]
 FEAT_BINS = ["ser"]
-ASSERT_CFGS = ["assert", "assert-scalar"]
+ASSERT_CFGS = ["assert", "assert-scalar", "assert-rel"]
 ASSERT_BINS = ["chain", "rot", "lin"]
